@@ -232,8 +232,13 @@ func (a *attributeQuery) Select(t iterator) NodeNavigator {
 				return nil
 			}
 			node = node.Copy()
+			// an attribute node has no attributes of its own
+			isAttr := node.NodeType() == AttributeNode
 			a.iterator = func() NodeNavigator {
 				for {
+					if isAttr {
+						return nil
+					}
 					onAttr := node.MoveToNextAttribute()
 					if !onAttr {
 						return nil
